@@ -86,9 +86,15 @@ func (l *RateLimiter) Acquire(ctx context.Context, tokens int) (err error) {
 	if l.timeout > 0 && delay > l.timeout {
 		return core.ErrTimeout
 	}
+	parent := ctx
 	ctx, cancel := context.WithTimeout(ctx, delay)
 	<-ctx.Done()
 	cancel()
+	if err = parent.Err(); err != nil {
+		// the caller gave up before the permits were due: the call must not go on as if
+		// it had been admitted
+		return err
+	}
 	return
 }
 
